@@ -1,4 +1,5 @@
 import Sgz.Model.Reader
+import Sgz.Model.Version
 /-!
 Line-protocol driver over the executable model (`Sgz/Model`, Mathlib-free).  One request per line, one answer per
 line.  The Python harness sends the same request to the real implementation and diffs canonical answers.
@@ -63,9 +64,34 @@ def handleRead (ws : List String) : String :=
         | _, _, _ => "bad-op"
       | _ => "bad-op"
 
+def b2s (b : Bool) : String := if b then "1" else "0"
+
+def handleVer (ws : List String) : String :=
+  match ws with
+  | ["dec", n] =>
+    match n.toNat? with
+    | some n =>
+      let v := Ver.decode n
+      s!"{v.major} {v.minor} {v.patch} {b2s v.dev} {v.encode} {b2s (Ver.paddedFooter n)} {b2s (Ver.microseconds n)}"
+    | none => "bad-op"
+  | ["enc", a, b, c, d] =>
+    match a.toNat?, b.toNat?, c.toNat?, d.toNat? with
+    | some a, some b, some c, some d => toString (Ver.encode ⟨a, b, c, d == 1⟩)
+    | _, _, _, _ => "bad-op"
+  | ["gt", a, b] =>
+    match a.toNat?, b.toNat? with
+    | some a, some b => b2s (Ver.gt (Ver.decode a) (Ver.decode b))
+    | _, _ => "bad-op"
+  | ["parse", s] =>
+    match Ver.parse s with
+    | some v => s!"{v.major} {v.minor} {v.patch} {b2s v.dev}"
+    | none => "err"
+  | _ => "bad-op"
+
 def handle (line : String) : String :=
   match (line.trimAscii.toString.splitOn " ").filter (· ≠ "") with
   | "read" :: rest => handleRead rest
+  | "ver" :: rest => handleVer rest
   | ["ping"] => "pong"
   | _ => "bad-op"
 
